@@ -220,6 +220,7 @@ ObsFlags(w, ev) ==
       wBad == {i \in 1..n : o.walive[i] # 2 /\ o.hs[i] \in w.issued /\ w.merged[o.hs[i]]
                             /\ (o.walive[i] = 1) # (w.status[o.hs[i]] # "dead")}
       joinBad == o.join # SortedById(nd) \/ (Has(o, "joinl") /\ o.joinl # SortedById(nd))
+                 \/ (Has(o, "joinp") /\ o.joinp # SortedById(nd))
       stBad == {p \in (1..Len(o.st)) \X (1..n) : o.st[p[1]].get[p[2]] # Cur(w, p[1], o.hs[p[2]])}
       maskBad == {s \in 1..Len(o.st) :
                     (SeqToSet(o.st[s].mask) \ w.resid[s]) # {h[1] : h \in DOMAIN w.comp[s]}
@@ -230,7 +231,7 @@ ObsFlags(w, ev) ==
                ELSE {s \in 1..Len(o.st) : Has(o.st[s], "evs") /\ ~EvMatch(w.evq[s], o.st[s].evs)}
   IN   {F(AliveProp(w, ev), "is_alive mismatch", o.hs[i]) : i \in aliveBad}
   \cup {F("C02", "World::is_alive mismatch", o.hs[i]) : i \in wBad}
-  \cup (IF joinBad THEN {F(AliveProp(w, ev), "entities join mismatch (join, lending join)", <<o.join, IF Has(o, "joinl") THEN o.joinl ELSE <<>>>>)} ELSE {})
+  \cup (IF joinBad THEN {F(AliveProp(w, ev), "entities join mismatch (join, lending join, parallel join)", <<o.join, IF Has(o, "joinl") THEN o.joinl ELSE <<>>, IF Has(o, "joinp") THEN o.joinp ELSE <<>>>>)} ELSE {})
   \cup {F(CompProp(w, ev, o.hs[p[2]]), "component lookup mismatch", <<p[1], o.hs[p[2]], o.st[p[1]].get[p[2]]>>) : p \in stBad}
   \cup {F(CompProp(w, ev, <<-1, -1>>), "mask mismatch", s) : s \in maskBad}
   \cup {F(AliveProp(w, ev), "is_alive through a storage's fetched entities differs from Entities::is_alive", s) : s \in feBad}
@@ -464,8 +465,15 @@ WOp(w, ev) ==
                              ELSE Wr(ww, i + 1)
             IN [w |-> Wr(w, 1), f |-> flag(got # exp, "items of restricted join", exp)]
        [] ev.k = "slice" ->
-            \* (after a caught destructor panic the raw slot view may show leaked values: unspecified)
-            IF w.fault THEN [w |-> w, f |-> {}] ELSE
+            \* (after a caught destructor panic the raw slot view may show leaked values - but never a value
+            \* that has been destroyed or handed back)
+            IF w.fault
+            THEN LET shown == IF ev.kind \in {"vec", "defvec_sparse"} THEN {ev.items[i][2] : i \in 1..Len(ev.items)}
+                              ELSE {ev.vals[i] : i \in 1..Len(ev.vals)}
+                     gone == {g \in shown : g # <<0, 0>> /\ g[1] \in DOMAIN w.led /\ w.led[g[1]] # "held"}
+                 IN [w |-> w, f |-> IF gone # {} THEN {F("C19", "the slot view of the storage shows a value that was already destroyed", <<s, gone>>),
+                                                          F("C08", "the slot view of the storage shows a value that was already destroyed", <<s, gone>>)} ELSE {}]
+            ELSE
             IF ev.kind = "vec"
             THEN LET exp == [i \in 1..Len(mem) |-> <<mem[i][1], w.comp[s][mem[i]]>>]
                  IN [w |-> w, f |-> flag(ev.items # exp, "slice at occupied indices", exp)]
@@ -565,7 +573,10 @@ Fault(w, ev) ==
                       !.resid = [s \in DOMAIN w.comp |-> IF s <= Len(o.st)
                                                           THEN w.resid[s] \cup (SeqToSet(o.st[s].mask) \ {o.hs[i][1] : i \in seen(s)})
                                                           ELSE w.resid[s]],
-                      !.led = LedSetAll(LedSetAll(w.led, des, "destroyed"), ret, "returned"),
+                      \* the ledger is re-based on the instrumented one as well: what the interrupted operation
+                      \* did not get to destroy is still held (leaked, which is allowed)
+                      !.led = [c \in DOMAIN w.led \cup ((des \cup ret) \ {0}) |->
+                                 IF c \in des THEN "destroyed" ELSE IF c \in ret THEN "returned" ELSE "held"],
                       !.evq = [s \in DOMAIN w.comp |-> <<>>],
                       \* a destructor that panics inside a queued lazy action unwinds out of the queue's
                       \* maintain, which discards the rest of the queue (no deferred deletion was being
